@@ -5,7 +5,7 @@ from a scratch copy of the harness, so /repo and /verif are never touched and se
 usage: mutx.py <Cxx> <file> <old> <new> [occurrence] [-- extra check args]
        mutx.py <Cxx> --patch <file.diff> [-- extra check args]
        mutx.py <Cxx> --none            (sanity: run the unmodified scratch copy)
-Scratch lives in /tmp/mutx-<Cxx>/ (repo/, harness/, out/); remove it when done (mutx.py <Cxx> --clean).
+Scratch lives in /tmp/mutx-<Cxx>/ (repo/ = copy of /repo, verif/ = copy of /verif with its own harness/target); remove it when done (mutx.py <Cxx> --clean).
 Prints CAUGHT / MISSED / INCONCLUSIVE plus the tail of the check's output."""
 import subprocess, sys, os, shutil
 prop = sys.argv[1]
@@ -16,13 +16,13 @@ if '--' in args:
 base = f'/tmp/mutx-{prop}'
 if args and args[0] == '--clean':
     shutil.rmtree(base, ignore_errors=True); print('cleaned'); sys.exit(0)
-os.makedirs(base + '/out', exist_ok=True)
+os.makedirs(base + '/verif', exist_ok=True)
 sh = lambda c: subprocess.run(c, shell=True, check=True)
+# base/repo = copy of /repo, base/verif = a faithful mini /verif (vcheck, checks/, tools/, harness/, KNOWN_FINDINGS.json)
 sh(f"rsync -a --delete --exclude target --exclude .git /repo/ {base}/repo/")
-sh(f"rsync -a --delete --exclude target /verif/harness/ {base}/harness/")
-sh(f"cp /verif/KNOWN_FINDINGS.json {base}/out/ 2>/dev/null || true")
-ct = open(f'{base}/harness/Cargo.toml').read().replace('path = "/repo"', f'path = "{base}/repo"')
-open(f'{base}/harness/Cargo.toml', 'w').write(ct)
+sh(f"rsync -a --delete --exclude .git --exclude harness/target --exclude work --exclude evidence --exclude replays --exclude seeded /verif/ {base}/verif/")
+ct = open(f'{base}/verif/harness/Cargo.toml').read().replace('path = "/repo"', f'path = "{base}/repo"')
+open(f'{base}/verif/harness/Cargo.toml', 'w').write(ct)
 desc = 'unmodified'
 if args and args[0] == '--patch':
     sh(f"cd {base}/repo && patch -p1 --quiet < {os.path.abspath(args[1])}")
@@ -44,14 +44,9 @@ else:
         idx = src.index(old, idx + 1)
     open(full, 'w').write(src[:idx] + new + src[idx + len(old):])
     desc = f'{old!r} -> {new!r}'
-crate = prop.lower()
-env = dict(os.environ, CARGO_NET_OFFLINE='true', VERIF_ROOT=base + '/out', CARGO_TARGET_DIR=base + '/target')
-b = subprocess.run(['cargo', 'build', '--release', '-p', crate], cwd=base + '/harness', env=env, capture_output=True, text=True)
-if b.returncode != 0:
-    print(f"INCONCLUSIVE (does not build) :: {desc}")
-    print('\n'.join([l for l in b.stderr.splitlines() if l.startswith('error')][:5]))
-    sys.exit(2)
-r = subprocess.run([f'{base}/target/release/{crate}', '--tier', 'quick'] + extra, cwd=base + '/harness', env=env, capture_output=True, text=True)
+env = dict(os.environ, CARGO_NET_OFFLINE='true')
+env.pop('VERIF_ROOT', None); env.pop('CARGO_TARGET_DIR', None)
+r = subprocess.run([f'{base}/verif/vcheck', prop, '--tier', 'quick'] + extra, cwd=base + '/verif', env=env, capture_output=True, text=True)
 verdict = {0: 'MISSED', 1: 'CAUGHT'}.get(r.returncode, 'INCONCLUSIVE')
 print(f"{verdict} rc={r.returncode} :: {desc}")
 for l in (r.stdout + r.stderr).strip().splitlines()[-8:]:
